@@ -86,6 +86,7 @@ def genericTys (hasU hasN hasLt : Bool) : List Ty :=
    .path true [.mk "std" [], .mk "vec" [], .mk "Vec" [.ty tyT]],
    .path false [.mk "std" [], .mk "vec" [], .mk "Vec" [.ty tyT]],
    Ty.app "Wrap" [Ty.app "Wrap" [tyT]], Ty.app "Box" [.dynT false [.mk "Tr2" [.ty tyT]]],
+   .dynT false [.mk "Tr2" [.ty tyT]] [["Send"]], Ty.app "Box" [.dynT false [.mk "Tr2" [.ty tyT]] [["Send"], ["'static"]]],
    .path false [.mk "Other" [.assoc "Assoc" tyT]] ] ++
   (if hasU then [tyU, .tuple [tyT, tyU], .bareFn [tyT] (some tyU), Ty.app "Pair" [tyT, tyU], Ty.app "Option" [tyU]] else []) ++
   (if hasN then [.array tyT (.ident "N"), .array (Ty.simple "u8") (.ident "N"), Ty.app "Arr" [Ty.simple "N"],
@@ -99,6 +100,7 @@ def trickyTys : List Ty :=
    .path false [.mk "Vec" [.ty (.path true [.mk "T" []])]], .never, .ref none false (Ty.simple "str"),
    -- possibly unsized (matters for a last field)
    .slice (Ty.simple "u8"), Ty.simple "str", .dynT false [.mk "Tr2" [.ty (Ty.simple "u8")]], .path false [.mk "m" [], .mk "str" []],
+   .dynT false [.mk "Tr2" [.ty (Ty.simple "u8")]] [["Send"], ["Sync"]], .dynT true [.mk "core" [], .mk "fmt" [], .mk "Debug" []] [["'static"]],
    .path true [.mk "str" []]]
 
 def foreignAttrPool : List Toks :=
@@ -526,13 +528,21 @@ def genImplCase (fam : String) (seed idx : Nat) : Case := runGen seed idx do
   let generic ← chance 1 3
   let x : Ty := if generic then Ty.app "X" [tyT] else Ty.simple "X"
   let selfTy ← pickW [(5, x), (4, Ty.ref none false x), (1, .ref (some "'a") false x), (1, .ref none true x),
-                      (1, .paren x), (1, .tuple [x, Ty.simple "u8"])]
+                      (1, .paren x), (1, .tuple [x, Ty.simple "u8"]),
+                      -- trait objects as self type: with several bounds `&Self` has to be spelled `&(dyn A + B)`
+                      (1, .dynT false [.mk "Tr" []] [["Send"]]), (1, .dynT false [.mk "Tr" []]),
+                      (1, Ty.ref none false (.paren (.dynT false [.mk "Tr" []] [["Send"], ["'static"]])))]
   let rhsArg ← pickW [(3, (none : Option Ty)), (2, some Ty.selfTy), (2, some (.ref none false Ty.selfTy)),
                       (2, some (Ty.simple "u8")), (2, some (.ref none false (Ty.simple "u8"))),
                       (1, some (Ty.app "Y" [Ty.selfTy])), (1, some (.ref none false (Ty.app "Y" [tyT]))),
                       (1, some x), (1, some (.ref none false x)), (1, some (.ref (some "'a") false (Ty.simple "u8")))]
   let traitName := op.str ++ (if baseAssign then "Assign" else "")
-  let lastSeg : Seg := .mk traitName (match rhsArg with | some t => [.ty t] | none => [])
+  -- now and then the single generic argument of the trait is not a type (then the right-hand side is `Self`)
+  let oddArg ← pickW [(20, (none : Option GArg)), (1, some (.lt "'a")), (1, some (.lit "3")), (1, some (.assoc "Output" (Ty.simple "u8")))]
+  let lastSeg : Seg := .mk traitName (match oddArg, rhsArg with
+    | some a, _ => [a]
+    | none, some t => [.ty t]
+    | none, none => [])
   let pathStyle ← below 4
   let segs : List Seg := match pathStyle with
     | 0 => [lastSeg]
@@ -552,6 +562,10 @@ def genImplCase (fam : String) (seed idx : Nat) : Case := runGen seed idx do
   let members : List ImplMember :=
     (if baseAssign then [] else (match output with | some t => [.output t] | none => [])) ++ [.other fnToks]
   let members ← if ← chance 1 2 then pure members else pure members.reverse
+  -- other associated items around `Output`
+  let members ← if ← chance 1 6 then
+      pure ((ImplMember.other ["type", "Other", "=", "u8", ";"]) :: members ++ [.other ["const", "C", ":", "u8", "=", "1", ";"]])
+    else pure members
   let wh ← pickW [(5, ([] : List WPred)), (2, [.ty [] Ty.selfTy [.trait false [] (Ty.simple "Clone")]]),
                   (1, [.ty [] tyT [.trait false [] (.path false [.mk "Tr" [.ty Ty.selfTy]])]])]
   let ps : List GParam := (if generic then [.ty "T" [] none] else []) ++
@@ -640,7 +654,7 @@ def Ty.mapIdent (f : String → String) : Ty → Ty
   | .bareFn args ret => .bareFn (Ty.mapIdentL f args) (Ty.mapIdentO f ret)
   | .paren t => .paren (Ty.mapIdent f t)
   | .never => .never
-  | .dynT g segs => .dynT g (Seg.mapIdentL f segs)
+  | .dynT g segs more => .dynT g (Seg.mapIdentL f segs) more
   | .macro toks => .macro toks
 def Ty.mapIdentO (f : String → String) : Option Ty → Option Ty
   | none => none
